@@ -12,7 +12,7 @@ from props.c07 import row_to_cfg
 PID = "C10"
 LEVEL = "exploration"
 RULE = (
-    "Hypothesis draws (kernel x resampler x clustering x metric mode {ESS, vv 0.05/0.3/2} x evaluation mode x d x zero-likelihood region x likelihood width factor {1, 0.1, 0.03}) x case seed x shift c "
+    "Hypothesis draws (kernel x resampler x clustering x metric mode {ESS, vv 0.05/0.1/0.3/2} x evaluation mode x d x zero-likelihood region x likelihood width factor {1, 0.1, 0.03}) x case seed x shift c "
     "in +-[1e-3,1e3] (log-uniform, both signs); run A uses logL, run B uses logL+c under the same seed. "
     "Non-trivial = >=3 annealing iterations and |c|>=1. distinct = case hash."
     ' The *_full check draws a complete configuration with vlib.cfggen: every constructor option gets a generated value in every case (d, evaluation mode incl. one/two blobs, zero-likelihood region, narrow target, kernel, resampler, clustering, normalize, cluster_every, n_max_clusters, split_threshold, ess_ratio, ESS/volume-variation metric, n_particles incl. odd, n_steps/n_max_steps, periodic/reflective indices, pool kind, extra likelihood args/kwargs, random_state int/NumPy-int/None); the oracle is the same.'
@@ -27,13 +27,20 @@ ASSUMPTIONS = [
 @st.composite
 def cases(draw):
     sign = draw(st.sampled_from([-1.0, 1.0]))
-    metric = draw(st.sampled_from(["ess", "ess", "vv0.3", "vv2", "vv0.05"]))
+    metric = draw(st.sampled_from(["ess", "ess", "vv0.3", "vv2", "vv0.05", "vv0.1"]))
     # an ambitious volume-variation target on a likelihood much narrower than the prior makes the temperature steps shrink to the
-    # beta tolerance (bisections then end on the tolerance, not on the metric): generate that corner on purpose
-    narrow = draw(st.sampled_from([0.1, 0.1, 0.03])) if metric == "vv0.05" else draw(st.sampled_from([1.0, 1.0, 1.0, 0.1]))
+    # beta tolerance (bisections then end on the tolerance, not on the metric): generate that corner on purpose. Measured on the
+    # unchanged tree: vv0.1 x width factor 0.03 x d=3 ends 4-9 bisections per run on the tolerance at ~2 s per run; vv0.05 does so
+    # from d=2 on (5-30 s per run). The class counter 'bisection-ended-on-tolerance' in the evidence shows what was reached.
+    narrow = draw(st.sampled_from([0.1, 0.03, 0.03])) if metric in ("vv0.05", "vv0.1") else draw(st.sampled_from([1.0, 1.0, 1.0, 0.1]))
+    d = draw(st.integers(1, 3))
+    if metric == "vv0.1":
+        d = 3
+    elif metric == "vv0.05":
+        d = min(d, 2)
     return {"row": {"kernel": draw(st.sampled_from(["tpcn", "rwm"])), "resample": draw(st.sampled_from(["mult", "syst"])),
                     "clustering": draw(st.booleans()), "metric": metric, 
-                    "mode": draw(st.sampled_from(["vector", "scalar", "blobs"])), "zero": draw(st.booleans()), "d": draw(st.integers(1, 3)),
+                    "mode": draw(st.sampled_from(["vector", "scalar", "blobs"])), "zero": draw(st.booleans()), "d": d,
                     "boundary": draw(st.sampled_from(["none", "none", "periodic", "reflective"]))},
             "c": sign * 10.0 ** draw(st.floats(-3.0, 3.0)), "seed": draw(st.integers(0, 2**31 - 3)), "narrow": narrow}
 
@@ -46,6 +53,7 @@ def one_run(row, seed, shift, narrow=1.0):
     t = Target.from_spec(spec)
     np.random.seed(seed)
     s = make_sampler(t, row_to_cfg(row, d, seed))
+    ended = observe_bisections(s)
     with quiet():
         lib_call(s.run, n_total=96, progress=False, what=f"Sampler.run (logL{'+c' if shift else ''})")
     st_ = s.state
@@ -55,7 +63,45 @@ def one_run(row, seed, shift, narrow=1.0):
             "ess": np.array(st_.get_history("ess"), dtype=float), "u": [np.asarray(st_.get_history("u", index=i)) for i in range(T)],
             "x": [np.asarray(st_.get_history("x", index=i)) for i in range(T)],
             "logl": [np.asarray(st_.get_history("logl", index=i)) for i in range(T)], "calls": list(st_.get_history("calls")),
-            "weights": np.asarray(w[1], dtype=float), "final": float(s.evidence()[0]), "ess_post": ess_from_logw(w[-1])}
+            "weights": np.asarray(w[1], dtype=float), "final": float(s.evidence()[0]), "ess_post": ess_from_logw(w[-1]),
+            "tol_ended": ended["tol"]}
+
+
+def observe_bisections(s):
+    """Optional observation (measures what the generator reaches, decides nothing): how many volume-variation bisections ended on the
+    beta tolerance rather than on the metric. Passes the search function through untouched; absent method = no observation."""
+    ended = {"tol": 0}
+    rw = getattr(getattr(s, "_core", None), "reweighter", None)
+    orig = getattr(rw, "_find_beta_bisection", None)
+    if orig is None or getattr(rw, "volume_variation", None) is None:
+        return ended
+
+    def wrapper(*a, **k):
+        fns = [i for i, v in enumerate(a) if callable(v)]
+        if len(fns) != 1 or k or len(a) != 4:
+            return orig(*a, **k)
+        evals = []
+        fn, target = a[fns[0]], a[2]
+
+        def mf(b):
+            r = fn(b)
+            try:
+                evals.append(float(r[0]))
+            except Exception:  # noqa
+                pass
+            return r
+
+        mf.__name__ = getattr(fn, "__name__", "metric_fn")
+        out = orig(*[mf if i == fns[0] else v for i, v in enumerate(a)])
+        try:
+            if getattr(fn, "__name__", "").startswith("volume") and evals and abs(evals[-1] - float(target)) >= 0.01 * float(target):
+                ended["tol"] += 1
+        except Exception:  # noqa
+            pass
+        return out
+
+    rw._find_beta_bisection = wrapper
+    return ended
 
 
 def compare(A, B, c):
@@ -106,7 +152,8 @@ def execute(case):
     n_anneal = int(np.sum(res["beta"] > 0))
     return {"nontrivial": n_anneal >= 3 and abs(c) >= 1,
             "classes": ["kernel:" + row["kernel"], "clustering" if row["clustering"] else "noclustering", "metric:" + row["metric"],
-                        "|c|>=1" if abs(c) >= 1 else "|c|<1", "zero" if row["zero"] else "nozero"],
+                        "|c|>=1" if abs(c) >= 1 else "|c|<1", "zero" if row["zero"] else "nozero"]
+                       + (["bisection-ended-on-tolerance"] if res.get("tol_ended") else []),
             "sample": {"row": row, "c": c, "iterations": res["T"], "final_logz": res["final"]}}
 
 
